@@ -1,3 +1,318 @@
 import CircuitModel.Manager
 namespace CM.Mgr
+
+/-! ### runCtors: equations, frame, merged layer -/
+
+/-- the settings a constructor contributes -/
+def layerOf : Ctor → Layer
+  | .layer l => l
+  | .statFactory => {}
+
+theorem runCtors_nil (name : String) (acc : Layer × State × Option Nat) : runCtors name [] acc = acc := rfl
+
+theorem runCtors_layer (name : String) (l : Layer) (rest : List Ctor) (acc : Layer × State × Option Nat) :
+    runCtors name (.layer l :: rest) acc =
+      (merge (runCtors name rest acc).1 l, (runCtors name rest acc).2.1, (runCtors name rest acc).2.2) := rfl
+
+theorem runCtors_sf (name : String) (rest : List Ctor) (acc : Layer × State × Option Nat) :
+    runCtors name (.statFactory :: rest) acc =
+      ((runCtors name rest acc).1,
+       { (runCtors name rest acc).2.1 with
+           statBinding := (name, (runCtors name rest acc).2.1.nextStat) :: (runCtors name rest acc).2.1.statBinding,
+           nextStat := (runCtors name rest acc).2.1.nextStat + 1 },
+       (runCtors name rest acc).2.2.orElse fun _ => some (runCtors name rest acc).2.1.nextStat) := rfl
+
+theorem runCtors_circuits (name : String) (cs : List Ctor) (acc : Layer × State × Option Nat) :
+    (runCtors name cs acc).2.1.circuits = acc.2.1.circuits := by
+  induction cs with
+  | nil => rfl
+  | cons c rest ih => cases c <;> simp [runCtors_layer, runCtors_sf, ih]
+
+theorem runCtors_nextId (name : String) (cs : List Ctor) (acc : Layer × State × Option Nat) :
+    (runCtors name cs acc).2.1.nextId = acc.2.1.nextId := by
+  induction cs with
+  | nil => rfl
+  | cons c rest ih => cases c <;> simp [runCtors_layer, runCtors_sf, ih]
+
+theorem runCtors_ctors (name : String) (cs : List Ctor) (acc : Layer × State × Option Nat) :
+    (runCtors name cs acc).2.1.ctors = acc.2.1.ctors := by
+  induction cs with
+  | nil => rfl
+  | cons c rest ih => cases c <;> simp [runCtors_layer, runCtors_sf, ih]
+
+theorem merge_empty (x : Layer) : merge x {} = x := by
+  cases x
+  simp [merge]
+  omega
+
+theorem runCtors_cfg (name : String) (cs : List Ctor) (acc : Layer × State × Option Nat) :
+    (runCtors name cs acc).1 = (cs.reverse.map layerOf).foldl merge acc.1 := by
+  induction cs with
+  | nil => rfl
+  | cons c rest ih =>
+    cases c with
+    | layer l => simp [runCtors_layer, ih, List.foldl_append, layerOf]
+    | statFactory => simp [runCtors_sf, ih, List.foldl_append, layerOf, merge_empty]
+
+/-! ### stat factory bookkeeping -/
+
+theorem runCtors_statFor_other (name n : String) (hn : n ≠ name) (cs : List Ctor) (acc : Layer × State × Option Nat) :
+    (runCtors name cs acc).2.1.statFor n = acc.2.1.statFor n := by
+  induction cs with
+  | nil => rfl
+  | cons c rest ih =>
+    cases c with
+    | layer l => simpa [runCtors_layer] using ih
+    | statFactory =>
+      rw [← ih]
+      have : (name == n) = false := by simpa using fun h => hn h.symm
+      simp [runCtors_sf, State.statFor, this]
+
+theorem runCtors_noSF (name : String) (cs : List Ctor) (h : cs.contains .statFactory = false)
+    (acc : Layer × State × Option Nat) : (runCtors name cs acc).2 = acc.2 := by
+  induction cs with
+  | nil => rfl
+  | cons c rest ih =>
+    cases c with
+    | layer l =>
+      have h' : rest.contains .statFactory = false := by simpa using h
+      simp [runCtors_layer, ih h']
+    | statFactory => simp at h
+
+theorem runCtors_stat_one (name : String) (cs : List Ctor) (hone : (cs.filter (· == .statFactory)).length ≤ 1)
+    (l : Layer) (s : State) :
+    (runCtors name cs (l, s, none)).2.2 =
+      if cs.contains .statFactory then (runCtors name cs (l, s, none)).2.1.statFor name else none := by
+  induction cs with
+  | nil => rfl
+  | cons c rest ih =>
+    cases c with
+    | layer l' =>
+      have h1 : (rest.filter (· == .statFactory)).length ≤ 1 := by simpa [List.filter_cons] using hone
+      simpa [runCtors_layer] using ih h1
+    | statFactory =>
+      have h0 : rest.contains .statFactory = false := by
+        simp at hone
+        cases hc : rest.contains Ctor.statFactory with
+        | false => rfl
+        | true => simp at hc; exact absurd rfl (hone _ hc)
+      have h2 := runCtors_noSF name rest h0 (l, s, none)
+      have h3 : (runCtors name rest (l, s, none)).2.2 = none := by rw [h2]
+      simp [runCtors_sf, h3, State.statFor]
+
+/-! ### create -/
+
+/-- the result of running the constructors for a creation -/
+abbrev rc (s : State) (name : String) (cfgs : List Layer) : Layer × State × Option Nat :=
+  runCtors name s.ctors (cfgs.foldl merge {}, s, none)
+
+/-- the circuit a successful creation builds -/
+def mkCircuit (s : State) (name : String) (cfgs : List Layer) : Circuit :=
+  { id := s.nextId, cfg := merge (rc s name cfgs).1 libDefaults, stats := (rc s name cfgs).2.2 }
+
+theorem create_some {s : State} {name : String} {c : Circuit} (cfgs : List Layer) (h : s.get name = some c) :
+    create s name cfgs = (s, .exists_) := by
+  unfold create; rw [h]
+
+theorem create_none {s : State} {name : String} (cfgs : List Layer) (h : s.get name = none) :
+    create s name cfgs =
+      ({ (rc s name cfgs).2.1 with
+          circuits := s.circuits ++ [(name, mkCircuit s name cfgs)], nextId := s.nextId + 1 },
+       .created (mkCircuit s name cfgs)) := by
+  have h1 := runCtors_circuits name s.ctors (cfgs.foldl merge {}, s, none)
+  have h2 := runCtors_nextId name s.ctors (cfgs.foldl merge {}, s, none)
+  simp only at h1 h2
+  unfold create; rw [h]
+  simp only [mkCircuit, rc, ← h1, ← h2]
+
+theorem create_none_circuits {s : State} {name : String} (cfgs : List Layer) (h : s.get name = none) :
+    (create s name cfgs).1.circuits = s.circuits ++ [(name, mkCircuit s name cfgs)] := by
+  rw [create_none cfgs h]
+
+theorem create_none_nextId {s : State} {name : String} (cfgs : List Layer) (h : s.get name = none) :
+    (create s name cfgs).1.nextId = s.nextId + 1 := by
+  rw [create_none cfgs h]
+
+theorem create_none_statBinding {s : State} {name : String} (cfgs : List Layer) (h : s.get name = none) :
+    (create s name cfgs).1.statBinding = (rc s name cfgs).2.1.statBinding := by
+  rw [create_none cfgs h]
+
+theorem create_ctors (s : State) (name : String) (cfgs : List Layer) : (create s name cfgs).1.ctors = s.ctors := by
+  cases h : s.get name with
+  | some c => rw [create_some cfgs h]
+  | none => rw [create_none cfgs h]; exact runCtors_ctors name s.ctors _
+
+theorem get_append (s : State) (name n : String) (c : Circuit) (s' : State)
+    (h : s'.circuits = s.circuits ++ [(n, c)]) :
+    s'.get name = (s.get name).or (if n = name then some c else none) := by
+  unfold State.get
+  rw [h, List.find?_append]
+  cases hf : List.find? (fun x => x.1 == name) s.circuits with
+  | some p => simp
+  | none =>
+    by_cases hn : n = name
+    · simp [hn]
+    · simp [hn]
+
+theorem create_get_same {s : State} {name : String} (cfgs : List Layer) (h : s.get name = none) :
+    (create s name cfgs).1.get name = some (mkCircuit s name cfgs) := by
+  rw [get_append s name name _ _ (create_none_circuits cfgs h), h]; simp
+
+theorem create_get_other (s : State) {name n : String} (cfgs : List Layer) (hn : n ≠ name) :
+    (create s n cfgs).1.get name = s.get name := by
+  cases h : s.get n with
+  | some c => rw [create_some cfgs h]
+  | none =>
+    rw [get_append s name n _ _ (create_none_circuits cfgs h)]; simp [hn]
+
+theorem create_get_preserve {s : State} {name : String} {c : Circuit} (h : s.get name = some c) (n : String)
+    (cfgs : List Layer) : (create s n cfgs).1.get name = some c := by
+  by_cases hn : n = name
+  · subst hn; rw [create_some cfgs h]; exact h
+  · rw [create_get_other s cfgs hn]; exact h
+
+theorem step_get_preserve {s : State} {name : String} {c : Circuit} (h : s.get name = some c) (op : Op) :
+    (step s op).1.get name = some c := by
+  cases op with
+  | create n cs => exact create_get_preserve h n cs
+  | get n => exact h
+  | all => exact h
+  | stats n => exact h
+
+theorem exec_nil (s : State) : exec s [] = s := rfl
+theorem exec_cons (s : State) (op : Op) (ops : List Op) : exec s (op :: ops) = exec (step s op).1 ops := rfl
+
+theorem exec_inv (P : State → Prop) (hstep : ∀ s op, P s → P (step s op).1) (s : State) (ops : List Op)
+    (h : P s) : P (exec s ops) := by
+  induction ops generalizing s with
+  | nil => exact h
+  | cons op ops ih => rw [exec_cons]; exact ih _ (hstep s op h)
+
+theorem run_nil (s : State) : run s [] = [] := rfl
+theorem run_cons (s : State) (op : Op) (ops : List Op) :
+    run s (op :: ops) = (step s op).2 :: run (step s op).1 ops := rfl
+
+/-! ### sortNat on sorted lists -/
+
+theorem sortNat_sorted (l : List Nat) (h : l.Pairwise (· ≤ ·)) : sortNat l = l := by
+  induction l with
+  | nil => rfl
+  | cons x xs ih =>
+    rw [List.pairwise_cons] at h
+    rw [sortNat, ih h.2]
+    cases xs with
+    | nil => rfl
+    | cons y ys =>
+      have : x ≤ y := h.1 y (by simp)
+      simp [insertNat, this]
+
+theorem sortNat_range (k : Nat) : sortNat (List.range k) = List.range k :=
+  sortNat_sorted _ List.pairwise_le_range
+
+/-- ids are handed out 0,1,2,… in creation order -/
+def IdsInv (s : State) : Prop := s.circuits.map (·.2.id) = List.range s.nextId
+
+theorem idsInv_step (s : State) (op : Op) (h : IdsInv s) : IdsInv (step s op).1 := by
+  cases op with
+  | create n cs =>
+    show IdsInv (create s n cs).1
+    cases hg : s.get n with
+    | some c => rw [create_some cs hg]; exact h
+    | none =>
+      unfold IdsInv at *
+      rw [create_none_circuits cs hg, create_none_nextId cs hg, List.map_append, h, List.range_succ]
+      rfl
+  | get n => exact h
+  | all => exact h
+  | stats n => exact h
+
+/-! ### precedence: folding `merge` computes first-set / any-set -/
+
+theorem firstSet_nil (f : Layer → Int) : firstSet f [] = 0 := rfl
+theorem firstSet_cons (f : Layer → Int) (l : Layer) (ls : List Layer) :
+    firstSet f (l :: ls) = if f l ≠ 0 then f l else firstSet f ls := by
+  unfold firstSet
+  by_cases h : f l = 0 <;> simp [h]
+
+theorem foldl_merge_scalar (f : Layer → Int) (hf : ∀ a b, f (merge a b) = if f a = 0 then f b else f a)
+    (layers : List Layer) (acc : Layer) :
+    f (layers.foldl merge acc) = if f acc ≠ 0 then f acc else firstSet f layers := by
+  induction layers generalizing acc with
+  | nil =>
+    by_cases h : f acc = 0 <;> simp [firstSet_nil, h]
+  | cons l ls ih =>
+    rw [List.foldl_cons, ih, hf, firstSet_cons]
+    by_cases h : f acc = 0 <;> simp [h]
+
+theorem foldl_merge_bool (f : Layer → Bool) (hf : ∀ a b, f (merge a b) = (f a || f b))
+    (layers : List Layer) (acc : Layer) :
+    f (layers.foldl merge acc) = (f acc || anySet f layers) := by
+  induction layers generalizing acc with
+  | nil => simp [anySet]
+  | cons l ls ih =>
+    rw [List.foldl_cons, ih, hf]
+    simp [anySet, Bool.or_assoc]
+
+theorem layerOf_eq : (fun c : Ctor => match c with | .layer l => l | .statFactory => ({} : Layer)) = layerOf := by
+  funext c; cases c <;> rfl
+
+theorem mkCircuit_cfg (s : State) (name : String) (cfgs : List Layer) :
+    (mkCircuit s name cfgs).cfg = (precedence s.ctors cfgs).foldl merge {} := by
+  simp only [mkCircuit, rc, runCtors_cfg, precedence, List.foldl_append]
+  rfl
+
+theorem foldl_merge_eq_spec (ctors : List Ctor) (cfgs : List Layer) :
+    (precedence ctors cfgs).foldl merge {} = specCfg ctors cfgs := by
+  have e1 := foldl_merge_scalar (·.timeout) (fun _ _ => rfl) (precedence ctors cfgs) {}
+  have e2 := foldl_merge_scalar (·.maxConc) (fun _ _ => rfl) (precedence ctors cfgs) {}
+  have e3 := foldl_merge_scalar (·.fbMaxConc) (fun _ _ => rfl) (precedence ctors cfgs) {}
+  have e4 := foldl_merge_bool (·.forceOpen) (fun _ _ => rfl) (precedence ctors cfgs) {}
+  have e5 := foldl_merge_bool (·.forcedClosed) (fun _ _ => rfl) (precedence ctors cfgs) {}
+  have e6 := foldl_merge_bool (·.disabled) (fun _ _ => rfl) (precedence ctors cfgs) {}
+  have e7 := foldl_merge_bool (·.fbDisabled) (fun _ _ => rfl) (precedence ctors cfgs) {}
+  have e8 := foldl_merge_bool (·.ignoreInterrupts) (fun _ _ => rfl) (precedence ctors cfgs) {}
+  simp only [ne_eq, not_true_eq_false, if_false, Bool.false_or] at e1 e2 e3 e4 e5 e6 e7 e8
+  generalize (precedence ctors cfgs).foldl merge {} = x at *
+  unfold specCfg
+  cases x
+  simp only at e1 e2 e3 e4 e5 e6 e7 e8
+  simp only [e1, e2, e3, e4, e5, e6, e7, e8]
+
+/-! ### stats stay bound -/
+
+/-- every live circuit carries the collector the factory currently hands out for its name -/
+def StatInv (ctors : List Ctor) (s : State) : Prop :=
+  s.ctors = ctors ∧
+  ∀ n c, s.get n = some c → c.stats = if ctors.contains .statFactory then s.statFor n else none
+
+theorem statInv_step (ctors : List Ctor) (hone : (ctors.filter (· == .statFactory)).length ≤ 1)
+    (s : State) (op : Op) (h : StatInv ctors s) : StatInv ctors (step s op).1 := by
+  cases op with
+  | get n => exact h
+  | all => exact h
+  | stats n => exact h
+  | create name cs =>
+    show StatInv ctors (create s name cs).1
+    cases hg : s.get name with
+    | some c => rw [create_some cs hg]; exact h
+    | none =>
+      obtain ⟨hc, hall⟩ := h
+      refine ⟨by rw [create_ctors, hc], ?_⟩
+      intro n c hget
+      have hsb : ∀ m, (create s name cs).1.statFor m = (rc s name cs).2.1.statFor m := by
+        intro m; unfold State.statFor; rw [create_none_statBinding cs hg]
+      rw [hsb]
+      by_cases hn : n = name
+      · subst hn
+        rw [create_get_same cs hg] at hget
+        cases hget
+        have := runCtors_stat_one n s.ctors (by rw [hc]; exact hone) (cs.foldl merge {}) s
+        rw [hc] at this
+        simpa [mkCircuit, rc, hc] using this
+      · have hn' : name ≠ n := fun e => hn e.symm
+        rw [create_get_other s cs hn'] at hget
+        rw [hall n c hget]
+        have := runCtors_statFor_other name n hn s.ctors (cs.foldl merge {}, s, none)
+        simp only [rc, this]
+
 end CM.Mgr
